@@ -14,6 +14,16 @@ COMMON_NOTE = ("Trusted: Lean 4.33 kernel (axioms ⊆ {propext, Classical.choice
                "fixed-offset zones, zip, libgit2, std::fs); f64 is modelled in ℚ and exact only on small dyadic values.")
 
 CLAIMS = {
+    "C02": {
+        "technique": "Lean 4 theorems on compareValues/Variant coercions/leafP (numeric, boolean, text atoms; quoted literal is text; boolean literal rejection) + CLI correspondence + independent Python oracle from lstat",
+        "text": ("Theorems for every entry value and every literal meeting the stated well-formedness predicate: an integer-typed column "
+                 "against an integral literal is the numeric comparison for all eight operator kinds; a boolean column against the documented "
+                 "words is (in)equality of booleans and an unparsable word is a status-2 error (D03 fixed); text =/!= without wildcard and "
+                 "===/!== are (in)equality of text; a quoted literal parses to text whatever it spells (D02 fixed). Date atoms: C13; pattern "
+                 "atoms: C12; unit literals: C14. BETWEEN inclusiveness, column-vs-column and the binding of columns to lstat attributes are "
+                 "decided by the correspondence and by an independent Python evaluation of the documented meaning for every entry."),
+        "ref": "DESIGN.md §4 C02",
+    },
     "C03": {
         "technique": "Lean 4 theorems on negate_expr_op / Op::negate (generated table) / conforms (involution, De Morgan, BETWEEN complement, verdict-level complement under per-type atom lemmas) + CLI correspondence + set-algebra oracle",
         "text": ("Theorems for every condition tree and entry: double negation is the identity (over the generated Op::negate table), NOT "
